@@ -407,6 +407,35 @@ def chunk_kwargs(chunk, acc):
                     variants.append(({alias: pairs}, [mk(f, ('"%s"' % a, '"%s"' % b)) for a, b in pairs]))
             for kwargs, sts in variants:
                 run_kwargs(acc, cp, kind, cls, clsname, f, kwargs, sts)
+    # one block object attached more than once (under two names, under the same name twice, to two parents): every
+    # attachment states the block's content under the name it was attached with
+    shared = [
+        ("stage", "StageBlock", "StageTransformBlock", {"prepend": "AB"}, ("transform_x86", "transform_x64"), "stage { transform-x86 { prepend \"AB\"; } transform-x64 { prepend \"AB\"; } }"),
+        ("http_get", "HttpGetBlock", "HttpOptionsBlock", {"header": [("A", "b")]}, ("client", "server"), "http-get { client { header \"A\" \"b\"; } server { header \"A\" \"b\"; } }"),
+        ("http_post", "HttpPostBlock", "HttpOptionsBlock", {"parameter": [("k", "v")]}, ("client", "client"), "http-post { client { parameter \"k\" \"v\"; } client { parameter \"k\" \"v\"; } }"),
+    ]
+    for top, topcls, subcls, subkw, names, text in shared:
+        for mode in ("set_config_block", "kwargs"):
+            if mode == "kwargs" and names[0] == names[1]:
+                continue
+            acc.states += 1
+            acc.transitions += 1
+            acc.case(("shared-block", top, names, mode))
+            try:
+                sub = getattr(cp, subcls)(**subkw)
+                if mode == "kwargs":
+                    parent = getattr(cp, topcls)(**{names[0]: sub, names[1]: sub})
+                else:
+                    parent = getattr(cp, topcls)()
+                    parent.set_config_block(names[0], sub)
+                    parent.set_config_block(names[1], sub)
+                prof = cp.C2Profile()
+                prof.set_config_block(top, parent)
+                parsed = cp.C2Profile.from_text(text)
+                if prof.tree != parsed.tree or prof.as_text() != parsed.as_text() or prof.as_dict() != parsed.as_dict():
+                    acc.fail("C11/builder/shared-block-object", {"kind": "kwargs", "block": topcls, "kwargs": f"{names} <- one {subcls} object ({mode})"}, str(parsed.tree)[:300], str(prof.tree)[:300])
+            except Exception as e:  # noqa
+                acc.fail("C11/builder/kwargs-exception", {"kind": "kwargs", "block": topcls, "kwargs": f"{names} <- one {subcls} object ({mode})"}, "built", f"{type(e).__name__}: {str(e)[:200]}")
     acc.sample({"builder": "HttpGetBlock(uri='val')", "equals": "http-get { set uri \"val\"; }"})
 
 
